@@ -27,10 +27,14 @@ EXPLANATION = (
     "parameters are taken from the recorded signature by position) with the documented cadence; a difference is a violation when it is a "
     "cadence literal with another constant / parameter, a weakening disjunction, an additional understood condition or the complete absence of "
     "the cadence among fully understood guards, otherwise undecided. R5 checks the order "
-    "of chained copies (a value is copied out before it is overwritten)."
+    "of chained copies (a value is copied out before it is overwritten). "
+    "Forms read: the second component of an unfiltered nnx.split(m) is state(m) (R1); `bool(...)` wrappers and aliases of boolean combinations in branch "
+    "conditions are the condition they wrap (R4); a field of an unmodified record (NamedTuple / dataclass / namedtuple) that the step function receives at its "
+    "single call site is the caller's parameter the field was constructed from (R4)."
 )
 TRUSTED = [
     "flax nnx.update(m, s) overwrites m's state with s; nnx.state(m) reads it; nnx.clone returns a deep copy sharing no storage",
+    "flax nnx.split(m) without filters returns (graphdef, state) with state equal to nnx.state(m)",
     "optax.incremental_update(new, old, step) (its leaf function is re-checked from the installed source in the thorough tier)",
     "distinct parameters of a training routine are distinct objects",
 ]
@@ -159,22 +163,27 @@ class _Prop(ast.NodeTransformer):
     `t = step + 1`) whose operands are unchanged since is replaced by that value, so that guards are compared by what they
     test and not by the names of temporaries."""
 
-    def __init__(self, cfg, at, depth=0):
-        self.cfg, self.at, self.depth = cfg, at, depth
+    def __init__(self, cfg, at, depth=0, carried=None):
+        self.cfg, self.at, self.depth, self.carried = cfg, at, depth, carried or {}
 
     def visit_Name(self, n):
         if not isinstance(n.ctx, ast.Load) or self.depth > 4 or n.id in _TRANSPARENT:
             return n
         ds = self.cfg.defs_of(self.at, n.id)
-        if len(ds) != 1 or ds[0].kind != "assign" or ds[0].value is None or not _simple_value(ds[0].value):
+        if len(ds) != 1 or ds[0].kind != "assign" or ds[0].value is None:
             return n
         rhs = ds[0].value
+        if self.carried and not _simple_value(rhs):
+            from ..expand import clone as _clone
+            rhs = ast.fix_missing_locations(_Carried(self.carried).visit(_clone(rhs)))
+        if not _simple_value(rhs):
+            return n
         names = {x.id for x in ast.walk(rhs) if isinstance(x, ast.Name)}
         rd, out = self.cfg.reaching(), self.cfg.reaching_out()[ds[0].node]
         if n.id in names or not all(rd[self.at].get(nm) == out.get(nm) for nm in names):
             return n
         from ..expand import clone
-        return _Prop(self.cfg, ds[0].node, self.depth + 1).visit(clone(rhs))
+        return _Prop(self.cfg, ds[0].node, self.depth + 1, self.carried).visit(clone(rhs))
 
 
 def _split_max(nf, sc, e):
@@ -202,12 +211,14 @@ def _repo_result_name(nf, sc, cfg, name, at):
     return None
 
 
-def _lit_canon(nf, sc, cfg, txt, truth, at):
+def _lit_canon(nf, sc, cfg, txt, truth, at, carried=None):
     """Canonical texts of a branch literal (a list: `max(a, b) <= x` yields two), counter-agnostic normalisations applied."""
     try:
         e = ast.parse(txt, mode="eval").body
     except SyntaxError:
         return [f"{'' if truth else '!'}{txt}"]
+    if carried:
+        e = ast.fix_missing_locations(_Carried(carried).visit(e))
     if isinstance(e, ast.Name):
         # a flag unpacked from the result of a repo function is named by its origin (callee, position), not by the local name
         c = _repo_result_name(nf, sc, cfg, e.id, at)
@@ -217,11 +228,11 @@ def _lit_canon(nf, sc, cfg, txt, truth, at):
         # operands that are flags returned by repo functions keep their origin name inside `a or b` as well
         parts = []
         for v in e.values:
-            sub = _lit_canon(nf, sc, cfg, ast.unparse(v), True, at)
+            sub = _lit_canon(nf, sc, cfg, ast.unparse(v), True, at, carried)
             parts.append(sub[0] if len(sub) == 1 else "and(" + ", ".join(sorted(sub)) + ")")
         c = ("and(" if isinstance(e.op, ast.And) else "or(") + ", ".join(sorted(parts)) + ")"
         return [c if truth else f"not({c})"]
-    e = ast.fix_missing_locations(_Prop(cfg, at).visit(e))
+    e = ast.fix_missing_locations(_Prop(cfg, at, 0, carried).visit(e))
     # truthiness of `x % y`
     if isinstance(e, ast.BinOp) and isinstance(e.op, ast.Mod):
         p = nf.poly(e, sc, at).canon()
@@ -259,7 +270,108 @@ def _int_alternative(nf, g):
     return [t] if t != g else []
 
 
-def _guards(nf, fn, cfg, nid, qual):
+def _carried_parameters(repo, res, nf, q, fn, cfg):
+    """{(P, field): caller parameter} for every parameter P of a step function that, at its single call site in the documented
+    caller, receives an immutable-by-use record (NamedTuple / dataclass / namedtuple construction of the package) whose field is
+    bound to an unmodified parameter of the caller: reading `P.field` in the step function reads that parameter.  Fields bound to
+    anything else, records that are written to, re-bound P and names that would collide with a name of the step function are left out
+    (the read stays an opaque attribute: undecided, never a violation)."""
+    group = [g for g in CALLER_GROUPS if g[0] == q]
+    if not group:
+        return {}
+    caller_q = group[0][1]
+    cfn = repo.func(caller_q)
+    cmi, ccfg = cfn._module, res.cfg_of(cfn)
+    sites = [(n.id, c) for n in ccfg.nodes if n.ast is not None and n.kind == "stmt" for c in ast.walk(n.ast)
+             if isinstance(c, ast.Call) and isinstance(c.func, (ast.Name, ast.Attribute))
+             and ((res.resolve(c.func, cmi, ccfg, n.id) or _NoTarget).qual == q or repo.resolve_expr(cmi, c.func) == q)]
+    if len(sites) != 1:
+        return {}
+    at, call = sites[0]
+    if any(isinstance(a_, ast.Starred) for a_ in call.args) or any(k.arg is None for k in call.keywords):
+        return {}
+    own_names = {d.name for n_ in cfg.nodes for d in n_.defs}
+    stores = lambda f_, nm: any(isinstance(x, ast.Attribute) and isinstance(x.ctx, (ast.Store, ast.Del)) and isinstance(x.value, ast.Name) and x.value.id == nm for x in ast.walk(f_))
+    out = {}
+    for P, arg in bind_call(fn, call).items():
+        if isinstance(arg, list) or P.startswith("*"):
+            continue
+        if [d.kind for n_ in cfg.nodes for d in n_.defs if d.name == P] != ["param"] or stores(fn, P):
+            continue
+        cat, ctor = at, arg
+        if isinstance(arg, ast.Name):
+            ds = ccfg.defs_of(at, arg.id)
+            if len(ds) != 1 or ds[0].kind != "assign" or ds[0].value is None or stores(cfn, arg.id):
+                continue
+            cat, ctor = ds[0].node, ds[0].value
+        if not (isinstance(ctor, ast.Call) and isinstance(ctor.func, (ast.Name, ast.Attribute))):
+            continue
+        cq = repo.resolve_expr(cmi, ctor.func)
+        if not (cq and cq.startswith(repo.PKG + ".")):
+            continue
+        try:
+            _m, node = repo.lookup(cq)
+        except Exception:
+            continue
+        fields = nf._record_fields(node)
+        if fields is None or any(isinstance(a_, ast.Starred) for a_ in ctor.args) or any(k.arg is None for k in ctor.keywords) or len(ctor.args) > len(fields):
+            continue
+        rec = dict(zip(fields, ctor.args))
+        kw = {k.arg: k.value for k in ctor.keywords}
+        if set(kw) & set(rec) or not set(kw) <= set(fields):
+            continue
+        rec.update(kw)
+        for f_, v in rec.items():
+            if not isinstance(v, ast.Name) or v.id in own_names:
+                continue
+            dv = ccfg.defs_of(cat, v.id)
+            if len(dv) == 1 and dv[0].kind == "param" and [d.kind for n_ in ccfg.nodes for d in n_.defs if d.name == v.id] == ["param"]:
+                out[(P, f_)] = v.id
+    return out
+
+
+class _Carried(ast.NodeTransformer):
+    def __init__(self, carried):
+        self.carried = carried
+
+    def visit_Attribute(self, n):
+        if isinstance(n.ctx, ast.Load) and isinstance(n.value, ast.Name) and (n.value.id, n.attr) in self.carried:
+            return ast.copy_location(ast.Name(id=self.carried[(n.value.id, n.attr)], ctx=ast.Load()), n)
+        return self.generic_visit(n)
+
+
+def _truth_of(nf, mi, cfg, test, at, depth=0):
+    """The condition a branch tests, with `bool(...)` wrappers removed in boolean positions (the test itself, operands of not / and /
+    or): `over = bool(a or b); if over and c:` tests `(a or b) and c`.  A name is replaced only when it is bound once to `bool(<expr>)`
+    and the operands of <expr> still have the values they had there."""
+    if depth > 4:
+        return test
+    if isinstance(test, ast.UnaryOp) and isinstance(test.op, ast.Not):
+        return ast.copy_location(ast.UnaryOp(op=ast.Not(), operand=_truth_of(nf, mi, cfg, test.operand, at, depth)), test)
+    if isinstance(test, ast.BoolOp):
+        return ast.copy_location(ast.BoolOp(op=test.op, values=[_truth_of(nf, mi, cfg, v, at, depth) for v in test.values]), test)
+
+    def is_bool_call(x):
+        return isinstance(x, ast.Call) and isinstance(x.func, ast.Name) and x.func.id == "bool" and len(x.args) == 1 and not x.keywords \
+            and not isinstance(x.args[0], ast.Starred) and nf.repo.resolve_expr(mi, x.func) in (None, "builtins.bool", "bool")
+    if is_bool_call(test):
+        return _truth_of(nf, mi, cfg, test.args[0], at, depth + 1)
+    if isinstance(test, ast.Name):
+        ds = cfg.defs_of(at, test.id)
+        if len(ds) == 1 and ds[0].kind == "assign" and is_bool_call(ds[0].value):
+            rhs = ds[0].value.args[0]
+            names = {x.id for x in ast.walk(rhs) if isinstance(x, ast.Name)}
+            rd, out = cfg.reaching(), cfg.reaching_out()[ds[0].node]
+            if test.id not in names and all(rd[at].get(nm) == out.get(nm) for nm in names):
+                return _truth_of(nf, mi, cfg, rhs, at, depth + 1)
+        rhs = cfg._expand_name(test, at)
+        if isinstance(rhs, ast.BoolOp) or (isinstance(rhs, ast.UnaryOp) and isinstance(rhs.op, ast.Not)):
+            # `due = not bool(x)`: the alias of a boolean combination is the combination (with its own wrappers removed)
+            return _truth_of(nf, mi, cfg, rhs, at, depth + 1)
+    return test
+
+
+def _guards(nf, fn, cfg, nid, qual, carried=None):
     sc = Scope(None, fn._module, {}, qual)  # names stay names: guards are compared as written, not inlined
     out = []
     for b, lab in cfg.control_deps(nid):
@@ -267,12 +379,12 @@ def _guards(nf, fn, cfg, nid, qual):
         if bn.kind == "for" or isinstance(bn.ast, (ast.For, ast.While)):
             continue  # loops: `for _ in range(gradient_steps)` and the main loop carry no cadence
         if bn.kind == "test" and isinstance(bn.ast, ast.If):
-            for txt, truth in cfg._lits(bn.ast.test, lab, b):
+            for txt, truth in cfg._lits(_truth_of(nf, fn._module, cfg, bn.ast.test, b), lab, b):
                 # a name that was expanded into its defining expression (`done = terminated or truncated; if done:`) is
                 # represented by the expansion alone: the alias adds no condition
                 if txt.isidentifier() and cfg._expand_name(ast.Name(id=txt, ctx=ast.Load()), b) is not None:
                     continue
-                out += _lit_canon(nf, sc, cfg, txt, truth, b)
+                out += _lit_canon(nf, sc, cfg, txt, truth, b, carried)
     # flow-based supplement: `if <not due>: return ...` before the update - a dominating branch from only one arm of which the
     # update is reachable contributes its condition just like an enclosing `if`
     syntactic = {b for b, _ in cfg.control_deps(nid)}
@@ -289,10 +401,10 @@ def _guards(nf, fn, cfg, nid, qual):
         names = {x.id for x in ast.walk(bn.ast.test) if isinstance(x, ast.Name)}
         if not all(rd[nid].get(nm) == rd[bn.id].get(nm) for nm in names):
             continue
-        for txt, truth in cfg._lits(bn.ast.test, lab, bn.id):
+        for txt, truth in cfg._lits(_truth_of(nf, fn._module, cfg, bn.ast.test, bn.id), lab, bn.id):
             if txt.isidentifier() and cfg._expand_name(ast.Name(id=txt, ctx=ast.Load()), bn.id) is not None:
                 continue
-            out += _lit_canon(nf, sc, cfg, txt, truth, bn.id)
+            out += _lit_canon(nf, sc, cfg, txt, truth, bn.id, carried)
     # de-duplicate, drop conditions that folded to true
     res = []
     for g in out:
@@ -417,7 +529,9 @@ def _routine(ck, repo, res, nf, eff, idn, q, state):
     fn = repo.func(q)
     mi = fn._module
     cfg = res.cfg_of(fn)
-    pnames = set(param_names(fn))
+    # parameters handed over inside a record (`hparams.target_delay`) are read as the caller's parameters they carry
+    carried = _carried_parameters(repo, res, nf, q, fn, cfg)
+    pnames = set(param_names(fn)) | set(carried.values())
     ren = _recorded_renames(q, fn)
     required = [_pattern_for(p, ren) for p in required]
     allowed = [_pattern_for(p, ren) for p in allowed]
@@ -485,7 +599,7 @@ def _routine(ck, repo, res, nf, eff, idn, q, state):
             if isinstance(p_, (ast.IfExp, ast.BoolOp, ast.Lambda, ast.ListComp, ast.SetComp, ast.DictComp, ast.GeneratorExp)):
                 raise AnalysisError(f"{q}: update {label} is evaluated inside `{short(p_, 60)}`: a condition that is not a branch of the control flow (unrecognised form)")
             p_ = getattr(p_, "_parent", None)
-        guarded.append((nid, c, k, label, where, o_id, t_id, _guards(nf, fn, cfg, nid, q)))
+        guarded.append((nid, c, k, label, where, o_id, t_id, _guards(nf, fn, cfg, nid, q, carried)))
     if surplus:
         # the same update written on both arms of a branch (`if x: update(a, b) ... else: update(a, b)`) runs whatever x is: the two
         # guard sets, which differ in one literal and its negation, stand for their common part
@@ -714,6 +828,32 @@ def _tau_fact(nf, sc, cfg, txt, truth, at, p_tau):
     return ("tau",) if p.atoms() == {p_tau} else ("other",)
 
 
+def _split_is_flax(repo, mi):
+    """Every `*.split(...)` call of the module is flax's nnx.split (and not, say, jax.random.split)."""
+    calls = [c for c in ast.walk(mi.tree) if isinstance(c, ast.Call) and isinstance(c.func, (ast.Name, ast.Attribute))
+             and (c.func.id if isinstance(c.func, ast.Name) else c.func.attr) == "split"]
+    return bool(calls) and all(repo.resolve_expr(mi, c.func) == "flax.nnx.split" for c in calls)
+
+
+def _norm_state(nf, repo, mi, p):
+    """`nnx.split(m)` without filters returns (graphdef, state) with state = nnx.state(m): its second component is read as
+    `state(m)`, so that the value is compared by what it is and not by the accessor it was obtained with."""
+    sub = {}
+    for a in p.atoms():
+        m = nf.meta.get(a) or {}
+        if m.get("fn") != "proj" or not a.endswith("[1]") or len(m.get("args", [])) != 1 or m.get("kws"):
+            continue
+        inner = m["args"][0].single_atom()
+        mi_ = nf.meta.get(inner) or {}
+        if inner is None or a != inner + "[1]" or mi_.get("fn", "").split(".")[-1] != "split" or len(mi_.get("args", [])) != 1 or mi_.get("kws"):
+            continue
+        obj = mi_["args"][0].single_atom()
+        if obj is None or not _split_is_flax(repo, mi):
+            continue
+        sub[a] = Poly.atom(f"state({obj})")
+    return p.subst(sub) if sub else p
+
+
 def _written_value(nf, repo, cfg, mi, sc, hq, ve, vn):
     """(normal form of the value handed to nnx.update - leaf-wise for tree maps and optax.incremental_update -, text shown,
     the expression that was read, its node)."""
@@ -732,16 +872,16 @@ def _written_value(nf, repo, cfg, mi, sc, hq, ve, vn):
         b.update({kw.arg: kw.value for kw in ve.keywords})
         if not all(k in b for k in ("new_tensors", "old_tensors", "step_size")):
             raise AnalysisError(f"{hq}: optax.incremental_update `{short(ve, 80)}` does not bind new / old / step (unrecognised form)")
-        n_, o_, s_ = (nf.poly(b[k], sc, vn) for k in ("new_tensors", "old_tensors", "step_size"))
+        n_, o_, s_ = (_norm_state(nf, repo, mi, nf.poly(b[k], sc, vn)) for k in ("new_tensors", "old_tensors", "step_size"))
         return s_ * n_ + (Poly.const(1) - s_) * o_, f"incremental_update(new={n_.canon()}, old={o_.canon()}, step={s_.canon()})", ve, vn
     if fq in TREE_MAPS:
         trees = [a_ for a_ in ve.args[1:] if not isinstance(a_, ast.Starred)]
         if not ve.args or len(trees) != len(ve.args) - 1 or any(kw.arg not in ("is_leaf",) for kw in ve.keywords):
             raise AnalysisError(f"{hq}: tree map `{short(ve, 80)}` with unpacked / unknown arguments (unrecognised form)")
         leaf = leaf_application(repo, mi, ve.args[0], trees, cfg, vn)
-        got = nf.poly(leaf, sc, vn)
+        got = _norm_state(nf, repo, mi, nf.poly(leaf, sc, vn))
         return got, f"leaf-wise {got.canon()}", leaf, vn
-    got = nf.poly(ve, sc, vn)
+    got = _norm_state(nf, repo, mi, nf.poly(ve, sc, vn))
     return got, got.canon(), ve, vn
 
 
@@ -759,13 +899,14 @@ def _state_filter_only(nf, got, names):
     return seen
 
 
-def _reads(nf, sc, e, at):
+def _reads(nf, sc, e, at, repo=None, mi=None):
     """Canonical texts of the sub-expressions (calls and names) an expression is computed from."""
     out = set()
     for x in ast.walk(e):
         if isinstance(x, ast.Call) or (isinstance(x, ast.Name) and isinstance(x.ctx, ast.Load)):
             try:
-                out.add(nf.poly(x, sc, at).canon())
+                p_ = nf.poly(x, sc, at)
+                out.add((_norm_state(nf, repo, mi, p_) if repo is not None else p_).canon())
             except AnalysisError:
                 pass
     return out
@@ -780,7 +921,7 @@ def _event(nf, repo, cfg, mi, sc, hq, c, nid, depth=0):
         if len(c.args) != 2 or c.keywords or any(isinstance(a_, ast.Starred) for a_ in c.args):
             raise AnalysisError(f"{hq}: `{short(c, 60)}`: arguments of nnx.update cannot be read (unrecognised form)")
         got_p, shown, read_e, read_n = _written_value(nf, repo, cfg, mi, sc, hq, c.args[1], nid)
-        return nf.poly(c.args[0], sc, nid), got_p, shown, _reads(nf, sc, read_e, read_n)
+        return nf.poly(c.args[0], sc, nid), got_p, shown, _reads(nf, sc, read_e, read_n, repo, mi)
     if depth:
         raise AnalysisError(f"{hq}: the helpers call each other (unrecognised form)")
     fn2 = repo.func(fq)
@@ -1068,6 +1209,11 @@ MUTANTS = [
     {"id": "c06-ddpg-update-in-undocumented-routine", "file": _A + "ddpg.py", "rule": "R4", "edits": [("from ..blox.target_net import soft_target_net_update", "from ..blox.target_net import soft_target_net_update, hard_target_net_update"), (") -> float:\n    r\"\"\"DDPG actor update.", ") -> float:\n    hard_target_net_update(q, policy)\n    r\"\"\"DDPG actor update.")]},
     {"id": "c06-ddqn-extra-helper", "file": _A + "ddqn.py", "rule": "R4", "find": "            if step % target_update_frequency == 0:\n                hard_target_net_update(q_net, q_target_net)", "replace": "            if step % target_update_frequency == 0:\n                hard_target_net_update(q_net, q_target_net)\n        if terminated:\n            hard_target_net_update(q_net, q_target_net)"},
     {"id": "c06-td7-target-embedding-aliased-on-one-path", "file": "rl_blox/algorithm/td7.py", "rule": "R2", "find": '    policy = DeterministicSALEPolicy(fixed_embedding, actor)\n    policy_target = DeterministicSALEPolicy(\n        fixed_embedding_target, actor_target\n    )\n', "replace": '    policy = DeterministicSALEPolicy(fixed_embedding, actor)\n    if use_checkpoints:\n        policy_target = DeterministicSALEPolicy(fixed_embedding_target, actor_target)\n    else:\n        policy_target = DeterministicSALEPolicy(policy.embedding, actor_target)\n'},
+    {"id": "c06-hard-split-of-target", "file": _T, "rule": "R1", "find": "    nnx.update(target_net, nnx.state(net))", "replace": "    _, online_state = nnx.split(target_net)\n    nnx.update(target_net, online_state)"},
+    {"id": "c06-soft-split-weights-swapped", "file": _T, "rule": "R1", "edits": [("import optax\n", "import optax\nimport jax\n"), ("    params = nnx.state(net)\n    target_params = nnx.state(target_net)\n    target_params = optax.incremental_update(params, target_params, tau)\n", "    graphdef, params = nnx.split(net)\n    target_params = nnx.split(target_net)[1]\n    rest = 1 - tau\n    target_params = jax.tree.map(lambda new, old: rest * new + tau * old, params, target_params)\n")]},
+    {"id": "c06-td7-carrier-wrong-field", "file": _A + "td7.py", "rule": "R4", "edits": [("from .td3 import make_sample_target_actions\n", "from .td3 import make_sample_target_actions\n\n\nDelays = namedtuple(\"Delays\", [\"policy\", \"target\"])\n"), ("    policy_delay,\n    target_delay,\n    lap_alpha,\n    lap_min_priority,\n):", "    delays,\n    lap_alpha,\n    lap_min_priority,\n):"), ("    if epoch % policy_delay == 0:\n        actor_loss_value", "    if epoch % delays.policy == 0:\n        actor_loss_value"), ("                    policy_delay,\n                    target_delay,\n                    lap_alpha,", "                    Delays(policy_delay, target_delay),\n                    lap_alpha,"), ("    if epoch % target_delay == 0:\n        hard_target_net_update(policy.actor", "    if epoch % delays.policy == 0:\n        hard_target_net_update(policy.actor")]},
+    {"id": "c06-td7-carrier-fields-swapped-at-construction", "file": _A + "td7.py", "rule": "R4", "edits": [("from .td3 import make_sample_target_actions\n", "from .td3 import make_sample_target_actions\n\n\nDelays = namedtuple(\"Delays\", [\"policy\", \"target\"])\n"), ("    policy_delay,\n    target_delay,\n    lap_alpha,\n    lap_min_priority,\n):", "    delays,\n    lap_alpha,\n    lap_min_priority,\n):"), ("    if epoch % policy_delay == 0:\n        actor_loss_value", "    if epoch % delays.policy == 0:\n        actor_loss_value"), ("                    policy_delay,\n                    target_delay,\n                    lap_alpha,", "                    Delays(target=policy_delay, policy=target_delay),\n                    lap_alpha,"), ("    if epoch % target_delay == 0:\n        hard_target_net_update(policy.actor", "    if epoch % delays.target == 0:\n        hard_target_net_update(policy.actor")]},
+    {"id": "c06-td3-bool-flag-off-by-one", "file": _A + "td3.py", "rule": "R4", "find": "                if step % policy_delay == 0:", "replace": "                due = bool(step % policy_delay == 1)\n                if due:"},
 ]
 BENIGN = [
     {"id": "c06-b-td7-target-embedding-cloned-on-both-paths", "file": "rl_blox/algorithm/td7.py", "find": '    policy = DeterministicSALEPolicy(fixed_embedding, actor)\n    policy_target = DeterministicSALEPolicy(\n        fixed_embedding_target, actor_target\n    )\n', "replace": '    policy = DeterministicSALEPolicy(fixed_embedding, actor)\n    if use_checkpoints:\n        policy_target = DeterministicSALEPolicy(fixed_embedding_target, actor_target)\n    else:\n        policy_target = DeterministicSALEPolicy(nnx.clone(policy.embedding), actor_target)\n'},
@@ -1095,4 +1241,12 @@ BENIGN = [
     {"id": "c06-b-td7-step-parameter-renamed", "file": _A + "td7.py", "edits": [("    target_delay,\n    lap_alpha,", "    sync_period,\n    lap_alpha,"), ("    if epoch % target_delay == 0:\n        hard_target_net_update(policy.actor", "    if epoch % sync_period == 0:\n        hard_target_net_update(policy.actor")]},
     {"id": "c06-b-td3-keywords-reordered", "file": _A + "td3.py", "find": "soft_target_net_update(q, q_target, tau)", "replace": "soft_target_net_update(tau=tau, target_net=q_target, net=q)"},
     {"id": "c06-b-td7-logging-between", "file": _A + "td7.py", "find": "        hard_target_net_update(critic, critic_target)\n", "replace": "        hard_target_net_update(critic, critic_target)\n        metrics[\"target update\"] = epoch\n"},
+    {"id": "c06-b-hard-split", "file": _T, "find": "    nnx.update(target_net, nnx.state(net))", "replace": "    graphdef, online_state = nnx.split(net)\n    del graphdef\n    nnx.update(target_net, online_state)"},
+    {"id": "c06-b-soft-split-incremental", "file": _T, "find": "    params = nnx.state(net)\n    target_params = nnx.state(target_net)\n", "replace": "    params = nnx.split(net)[1]\n    _graph, target_params = nnx.split(target_net)\n"},
+    {"id": "c06-b-soft-split-treemap", "file": _T, "edits": [("import optax\n", "import optax\nimport jax\n"), ("    params = nnx.state(net)\n    target_params = nnx.state(target_net)\n    target_params = optax.incremental_update(params, target_params, tau)\n", "    graphdef, params = nnx.split(net)\n    target_params = nnx.split(target_net)[1]\n    rest = 1 - tau\n    target_params = jax.tree.map(lambda new, old: tau * new + rest * old, params, target_params)\n")]},
+    {"id": "c06-b-td7-delays-in-a-record", "file": _A + "td7.py", "edits": [("from .td3 import make_sample_target_actions\n", "from .td3 import make_sample_target_actions\n\n\nDelays = namedtuple(\"Delays\", [\"policy\", \"target\"])\n"), ("    policy_delay,\n    target_delay,\n    lap_alpha,\n    lap_min_priority,\n):", "    delays,\n    lap_alpha,\n    lap_min_priority,\n):"), ("    if epoch % policy_delay == 0:\n        actor_loss_value", "    if epoch % delays.policy == 0:\n        actor_loss_value"), ("                    policy_delay,\n                    target_delay,\n                    lap_alpha,", "                    Delays(policy_delay, target_delay),\n                    lap_alpha,"), ("    if epoch % target_delay == 0:\n        hard_target_net_update(policy.actor", "    if epoch % delays.target == 0:\n        hard_target_net_update(policy.actor")]},
+    {"id": "c06-b-td7-delays-in-a-named-record-with-period-alias", "file": _A + "td7.py", "edits": [("from .td3 import make_sample_target_actions\n", "from .td3 import make_sample_target_actions\n\n\nDelays = namedtuple(\"Delays\", [\"policy\", \"target\"])\n"), ("    policy_delay,\n    target_delay,\n    lap_alpha,\n    lap_min_priority,\n):", "    delays,\n    lap_alpha,\n    lap_min_priority,\n):"), ("    if epoch % policy_delay == 0:\n        actor_loss_value", "    if epoch % delays.policy == 0:\n        actor_loss_value"), ("            for delayed_train_step_idx in range(1, training_steps + 1):\n", "            delays = Delays(target=target_delay, policy=policy_delay)\n            for delayed_train_step_idx in range(1, training_steps + 1):\n"), ("                    policy_delay,\n                    target_delay,\n                    lap_alpha,", "                    delays,\n                    lap_alpha,"), ("    if epoch % target_delay == 0:\n        hard_target_net_update(policy.actor", "    sync_every = delays.target\n    if epoch % sync_every == 0:\n        hard_target_net_update(policy.actor")]},
+    {"id": "c06-b-td3-bool-flag", "file": _A + "td3.py", "find": "                if step % policy_delay == 0:", "replace": "                due = bool(step % policy_delay == 0)\n                if due:"},
+    {"id": "c06-b-sac-bool-inline", "file": _A + "sac.py", "find": "            if step % target_network_delay == 0:", "replace": "            if bool(step % target_network_delay == 0):"},
+    {"id": "c06-b-td7-episode-over-flag", "file": _A + "td7.py", "edits": [("        next_obs, reward, termination, truncated, info = env.step(action)\n", "        next_obs, reward, termination, truncated, info = env.step(action)\n        finished = bool(truncated or termination)\n"), ("            if (termination or truncated) and use_checkpoints:", "            if use_checkpoints and finished:")]},
 ]
